@@ -18,7 +18,7 @@ func init() {
 			"R12.4 the prefix dispatcher records an error on the no-entry path; " +
 			"R12.6 (information) expect results that are dropped. " +
 			"The corruption quantifier itself (all programs x deletions/fusions/truncations filtered by a reference JavaScript parser) and the position clause are not decided.",
-		notDecided: []string{"the corruption quantifier and the 'no longer valid JavaScript' filter", "the position of the first reported error", "R12.1 (every printed terminal is checked on input) and R12.5 (unterminated literals observable) are reported here once armed"},
+		notDecided: []string{"the corruption quantifier and the 'no longer valid JavaScript' filter", "the position of the first reported error", "open-class positions (an identifier in a parameter list) are consumed without a type test: listed as information under R12.1, see DESIGN.md"},
 	})
 }
 
@@ -44,6 +44,15 @@ func runC12(c *Ctx) {
 	ruleUnknownPrefix(c, a)
 	c.rule("R12.6", "information: expect results that are not branched on")
 	ruleExpectResults(c, a)
+	t := c.tables()
+	if !c.extractorProblems(t, "lexemes", "parser", "printer") {
+		g := c.grammar(t)
+		c.Tables["A2_parse_paths"] = g.dump(t)
+		c.rule("R12.1", "every fixed terminal of a node's printed form is tested on input by the parse path that builds the node (no unchecked advance in terminal position); the statement-list parser of the program stops only at end of input")
+		c.floor(25)
+		ruleTokenOrder(c, t, g, "checked")
+		ruleProgramReachesEOF(c, t, g)
+	}
 	if lexerRulesArmed {
 		c.rule("R12.5", "unterminated string/backtick literals are observable: the end-of-input exit and the closing-delimiter exit of the scanners are distinguishable downstream")
 		c.floor(2)
@@ -397,5 +406,37 @@ func ruleUnterminatedObservable(c *Ctx) {
 	}
 	if n == 0 {
 		c.unres("delimited literal tokens", lf.base.Pos(), "no token built from a delimited scanner found")
+	}
+}
+
+
+// ruleProgramReachesEOF: every success path of the method that builds ast.Program ends with the end-of-input token
+// as current token (tested), so no trailing input is silently dropped.
+func ruleProgramReachesEOF(c *Ctx, t *tables, g *grammarModel) {
+	eof, ok := t.tc.byName["EOF"]
+	if !ok {
+		c.unres("Program: stops at end of input", token.NoPos, "token.EOF not found")
+		return
+	}
+	for _, gm := range g.byNode["Program"] {
+		key := "Program built by " + gm.method.Name() + ": stops only at end of input"
+		pos := c.declIdx[gm.method].Pos()
+		if len(gm.issues) > 0 || len(gm.paths) == 0 {
+			c.unres(key, pos, "parse method not understood by the path enumerator")
+			continue
+		}
+		bad := ""
+		for _, gp := range gm.paths {
+			last := gp.events[len(gp.events)-1]
+			if last.kind != gTok || !last.checked || len(last.types) != 1 || !last.types[eof] {
+				bad = renderPath(t.tc, gp.events)
+				break
+			}
+		}
+		if bad != "" {
+			c.bad(key, pos, "a success path returns the program while the current token is not known to be end of input (%s): the rest of the input is dropped without an error", bad)
+		} else {
+			c.ok(key, pos, "all %d success paths end at a tested end-of-input token", len(gm.paths))
+		}
 	}
 }
